@@ -169,6 +169,11 @@ type h1Packet struct {
 
 type h1World struct {
 	run   *simkit.Run
+	// gapPossible: ids that SOME observer has forgotten and learnt again. The
+	// version gap of finding F4 is inherited by whoever learns the node's
+	// state from that observer (a delta carries what the sender has), so the
+	// attribution cannot stay with the observer that did the forgetting.
+	gapPossible map[string]bool
 	nw    *simnet.Net
 	nodes []*h1Node
 	byID  map[string]*h1Node
@@ -809,6 +814,7 @@ func (w *h1World) checkAll(localOpOn *h1Node) {
 				v.known = false // forgotten: monotonicity and stickiness tracking restart
 				v.leftSeenSet = false
 				v.expiredOnce = true
+				w.noteGap(id)
 			}
 		}
 		metas := o.g.state.Nodes()
@@ -844,6 +850,7 @@ func (w *h1World) checkAll(localOpOn *h1Node) {
 				v.known = false // forgotten (expired): monotonicity tracking restarts
 				v.leftSeenSet = false
 				v.expiredOnce = true
+				w.noteGap(id)
 			}
 		}
 		w.checkFold(o, metas)
@@ -900,7 +907,7 @@ func (w *h1World) checkView(o, x *h1Node, ns *NodeState) {
 		he, ok := have[k]
 		if !ok {
 			sig := "missing-entry"
-			if pv.expiredOnce {
+			if pv.expiredOnce || w.gapPossible[x.id] {
 				// F4: re-created after an expiry from a delta answering a pre-expiry digest
 				sig = "missing-entry-after-expiry-relearn"
 			}
@@ -1133,4 +1140,11 @@ func h1Value(kind, n int, salt int) string {
 	default:
 		return strings.Repeat("L", n) + strconv.Itoa(salt)
 	}
+}
+
+func (w *h1World) noteGap(id string) {
+	if w.gapPossible == nil {
+		w.gapPossible = map[string]bool{}
+	}
+	w.gapPossible[id] = true
 }
